@@ -5,7 +5,12 @@
 // receives the cheque sequences TLC generated.  Every cheque is really signed
 // with the key the scenario names.  Logged per cheque: whether the service
 // accepted it, what the real ChequeStore.ReceiveCheque returned, and a projection
-// (last received cheque per issuer, per-peer received total of TrafficCheques).
+// (last received cheque per issuer, per-peer received total of TrafficCheques,
+// the chain address the address book holds per peer).
+// Registration is part of the scenario: par.reg0 says which peers registered
+// their own chain address before it starts (Service.Handshake, no cheque), and
+// op "handshake" {from, issuer} is a peer connecting and presenting a chain
+// address (possibly one that belongs to another overlay).
 // No oracle here.
 package main
 
@@ -27,8 +32,8 @@ import (
 )
 
 const (
-	nKeys  = 3 // keys 1..3 (1,2 registered as the chain addresses of peers 1,2; 3 belongs to the unregistered peer 3)
-	nPeers = 2 // registered peers
+	nKeys  = 3 // keys 1..3 = chain addresses that peers present
+	nPeers = 3 // overlays 1..3 (by default 1,2 have registered chain addresses 1,2 and 3 is unknown to the address book)
 )
 
 type node struct {
@@ -36,6 +41,7 @@ type node struct {
 	rec     *settle.RecStore
 	svc     *traffic.Service
 	proto   *trafficprotocol.Service
+	book    traffic.Addressbook
 	senders map[int]*sender
 }
 
@@ -49,7 +55,7 @@ var (
 	nsSeq  int
 )
 
-func newNode() (*node, error) {
+func newNode(reg0 []int) (*node, error) {
 	logger := settle.Logger()
 	if shared == nil {
 		s, err := ldbstore.NewInMemoryStateStore(logger)
@@ -71,9 +77,12 @@ func newNode() (*node, error) {
 	if err := svc.Init(); err != nil {
 		return nil, fmt.Errorf("init: %w", err)
 	}
-	n := &node{store: store, rec: rec, svc: svc, proto: proto, senders: map[int]*sender{}}
-	// peers 1 and 2 register their chain address the way a connection does (init stream -> Handshake, no cheque yet)
+	n := &node{store: store, rec: rec, svc: svc, proto: proto, book: book, senders: map[int]*sender{}}
+	// the peers of reg0 register their own chain address the way a connection does (init stream -> Handshake, no cheque yet)
 	for p := 1; p <= nPeers; p++ {
+		if p > len(reg0) || reg0[p-1] == 0 {
+			continue
+		}
 		if err := svc.Handshake(settle.Overlay(p), settle.Addr(p), chequePkg.SignedCheque{}); err != nil {
 			return nil, fmt.Errorf("register peer %d: %w", p, err)
 		}
@@ -106,7 +115,19 @@ func (n *node) project() (kit.Ev, error) {
 			}
 		}
 	}
-	return kit.Ev{"last": last, "recv": recv}, nil
+	// the chain address the address book holds for each peer: key index, 0 = unknown, 9 = some other address
+	reg := make([]int, nPeers)
+	for p := 1; p <= nPeers; p++ {
+		if a, known := n.book.Beneficiary(settle.Overlay(p)); known {
+			reg[p-1] = 9
+			for k := 1; k <= nKeys; k++ {
+				if a == settle.Addr(k) {
+					reg[p-1] = k
+				}
+			}
+		}
+	}
+	return kit.Ev{"last": last, "recv": recv, "reg": reg}, nil
 }
 
 func errs(e error) string {
@@ -117,7 +138,14 @@ func errs(e error) string {
 }
 
 func run(sc kit.Scenario, out *kit.Out) error {
-	n, err := newNode()
+	reg0 := []int{1, 1, 0}
+	if _, ok := sc.Par["reg0"]; ok {
+		reg0 = kit.IntList(sc.Par, "reg0")
+	}
+	for len(reg0) < nPeers {
+		reg0 = append(reg0, 0)
+	}
+	n, err := newNode(reg0)
 	if err != nil {
 		return err
 	}
@@ -130,9 +158,33 @@ func run(sc kit.Scenario, out *kit.Out) error {
 	if err != nil {
 		return err
 	}
-	out.Begin(sc.Scn, kit.Ev{"via": via, "st": st})
+	out.Begin(sc.Scn, kit.Ev{"via": via, "reg0": reg0[:nPeers], "st": st})
 	other := common.HexToAddress("0x00000000000000000000000000000000000000ee")
 	for _, op := range sc.Ops {
+		if kit.Str(op, "op") == "handshake" {
+			// a peer connects and presents a chain address (no cheque): the registration step
+			from, key := kit.Int(op, "from"), kit.Int(op, "issuer")
+			n.rec.Take()
+			var herr error
+			panicked, msg := kit.Guard(func() {
+				herr = n.svc.Handshake(settle.Overlay(from), settle.Addr(key), chequePkg.SignedCheque{})
+			})
+			amount := int64(0)
+			calls := n.rec.Take()
+			for _, c := range calls {
+				if c.Err == nil && c.Amount != nil {
+					amount += c.Amount.Int64()
+				}
+			}
+			st, err := n.project()
+			if err != nil {
+				return err
+			}
+			out.Emit(kit.Ev{"op": "handshake", "via": "service", "cls": kit.Str(op, "cls"), "from": from, "issuer": key,
+				"accepted": herr == nil && !panicked, "err": errs(herr), "panicked": panicked, "panic": msg,
+				"storeCalls": len(calls), "amount": amount, "st": st})
+			continue
+		}
 		if kit.Str(op, "op") != "cheque" {
 			return fmt.Errorf("unknown op %v", op["op"])
 		}
